@@ -40,6 +40,16 @@ def run(ctx):
         tr = os.path.join(ctx.work, "small.ndjson")
         ctx.record("record-lib", ["-scenario", "small", "-seed", seed, "-runs", "12" if thorough else "4"], tr)
         ctx.check_trace("Trace_Lib", "Trace_Lib.cfg", tr, "trace-small-hashed", must_have=("Exec",))
+        # the command line (`updog create [-b] -o path`, C16's anchor in cmd/updog/create.go): every enumerated CSV onto an occupied
+        # path (junk file, dangling symbolic link, index): exit status 1 and the occupant untouched (UpdogCLI.NeverClobbers)
+        updog = ctx.build_updog()
+        path = os.path.join(ctx.work, "cli.ndjson")
+        r = ctx.gen_to_file("MC_CLI", ctx.cfg_variant("MC_CLI.cfg", dict(MaxRecs=2, Emit="TRUE")), path, workers=4, label="gen-cli")
+        if r["emitted"] < 100:
+            raise Broken("MC_CLI emitted too few cases")
+        ctx.run_replay("replay-cli", ["-in", path, "-updog", updog, "-stride", "1" if thorough else "4", "-pre", "occupied"], "replay-cli-occupied-output",
+                       sigkeys=("kind", "defect", "pre"), timeout=3000)
+        os.remove(path)
         # files written in several transactions (> 1000 values), by every writer
         tr = os.path.join(ctx.work, "boundary.ndjson")
         ctx.record("record-lib", ["-scenario", "boundary", "-seed", seed, "-sizes", "1001,1002,1003,2500" if thorough else "1001,1002,1003"], tr)
